@@ -995,7 +995,187 @@ def rule_bundlekw(ctx):
             yield o
 
 
+def rule_beattrim(ctx):
+    """beat.evaluate scores the beats at or after min_beat_time: trim_beats keeps exactly the elements with
+    beat >= min_beat_time - a beat exactly at the threshold (5.0 s on a 120 BPM grid) stays."""
+    from .. import finmodel
+
+    R = "C03.BEATTRIM"
+    f = ctx.program.func("beat.trim_beats", R)
+    s = ctx.S.get(f.qual)
+    need(len(s.returns) == 1, R, "trim_beats: single return expected")
+    t = s.returns[0].term
+    beats, thr = tm.param(f.params[0]), tm.param(f.params[1])
+    need(t.op == "sub" and t.a[0] is beats, R, "trim_beats: the result is not a selection of the beats array: %s" % tm.show(t, 3))
+    sel = t.a[1]
+    want = tm.cmp("<=", thr, beats)
+    if sel.op == "slice":
+        lo, hi, st = sel.a
+        good = False
+        why = "slice form not recognised: %s" % tm.show(sel, 3)
+        if tm.is_const(hi, None) and tm.is_const(st, None) and lo.op == "call" and call_name(lo) in ("np.searchsorted", ".searchsorted") and len(lo.a[1]) >= 2 and lo.a[1][0] is beats and lo.a[1][1] is thr:
+            side = dict(lo.a[2]).get("side", lo.a[1][2] if len(lo.a[1]) > 2 else tm.const("left"))
+            good = tm.is_const(side, "left")
+            why = "beats[searchsorted(beats, min_beat_time, side='left'):] keeps the beats >= min_beat_time of a sorted array" if good else "searchsorted(..., side=%s) starts after the beats equal to min_beat_time: a beat exactly at the threshold is dropped" % tm.show(side, 1)
+        else:
+            need(False, R, "trim_beats: " + why)
+        yield ob(R, f, "beat.trim_beats:keeps>=", good, why)
+        return
+    from .c14 import _elementwise
+
+    eq = finmodel.equivalent(_elementwise(sel), want)
+    need(eq is not None, R, "trim_beats: selector %s is not a comparison of the beats with the threshold" % tm.show(sel, 3))
+    yield ob(R, f, "beat.trim_beats:keeps>=", bool(eq), "the selector %s keeps exactly the beats >= min_beat_time" % tm.show(sel, 3) if eq else "the selector %s does not keep exactly the beats >= min_beat_time (a beat at the threshold, or before it, is treated differently)" % tm.show(sel, 3))
+
+
+def _kw_view(v, kwname, ctx, depth=0):
+    """How much of the caller's **kwargs a forwarded mapping carries: ("full", None), ("filtered", keep) with
+    keep(name) -> True / False / None, or None when the mapping is not derived from **kwargs in a readable way."""
+    if depth > 40:
+        return None
+    if v.op == "param" and v.a[0] == kwname:
+        return ("full", None)
+    if v.op == "upd":
+        return _kw_view(v.a[0], kwname, ctx, depth + 1)
+    if v.op == "ite":
+        a, b2 = _kw_view(v.a[1], kwname, ctx, depth + 1), _kw_view(v.a[2], kwname, ctx, depth + 1)
+        if a is None or b2 is None:
+            return None
+        if a[0] == "full" and b2[0] == "full":
+            return a
+        ka = a[1] or (lambda n: True)
+        kb = b2[1] or (lambda n: True)
+        return ("filtered", lambda n: None if ka(n) is None or kb(n) is None else (ka(n) and kb(n)))
+    if v.op == "call" and call_name(v) in ("builtins.dict", ".copy", "copy.copy", "copy.deepcopy") and len(v.a[1]) == 1:
+        return _kw_view(v.a[1][0], kwname, ctx, depth + 1)
+    if v.op == "comp" and v.a[0] == "dict" and len(v.a[2]) == 1:
+        it = v.a[2][0]
+        if it.op == "call" and call_name(it) == ".items" and len(it.a[1]) == 1:
+            base = _kw_view(it.a[1][0], kwname, ctx, depth + 1)
+            if base is None:
+                return None
+            elem = tm.mk("iter", it, v.a[4])
+            key_t = tm.proj(elem, 0)
+            elt = v.a[1]
+            if not (elt.op == "tuple" and len(elt.a) == 2 and elt.a[0] is key_t):
+                return None
+            conds = list(v.a[3])
+            if not conds and base[0] == "full":
+                return base
+
+            def keep(name, conds=conds, key_t=key_t, base=base):
+                if base[1] is not None:
+                    b0 = base[1](name)
+                    if b0 is not True:
+                        return b0
+                for c in conds:
+                    r = _name_test(c, key_t, name, ctx)
+                    if r is None:
+                        return None
+                    if not r:
+                        return False
+                return True
+
+            return ("filtered", keep)
+    return None
+
+
+def _name_test(c, key_t, name, ctx):
+    """truth of a comprehension filter on the keyword name `name`: membership in a literal collection or in the
+    parameters of a repo function (inspect.signature(F).parameters, F.__code__.co_varnames)"""
+    if c.op == "un" and c.a[0] == "not":
+        r = _name_test(c.a[1], key_t, name, ctx)
+        return None if r is None else (not r)
+    if c.op == "bool":
+        rs = [_name_test(x, key_t, name, ctx) for x in c.a[1:]]
+        if any(r is None for r in rs):
+            return None
+        return all(rs) if c.a[0] == "and" else any(rs)
+    if c.op == "cmp" and c.a[0] in ("in", "notin", "==", "!=") and c.a[1] is key_t:
+        coll = c.a[2]
+        names = None
+        if coll.op in ("tuple", "list", "set") and all(z.op == "const" for z in coll.a):
+            names = {z.a[0] for z in coll.a}
+        elif coll.op == "const":
+            names = {coll.a[0]}
+        elif coll.op == "attr" and coll.a[1] == "parameters" and coll.a[0].op == "call" and call_name(coll.a[0]) == "inspect.signature" and len(coll.a[0].a[1]) == 1:
+            fn = coll.a[0].a[1][0]
+            if fn.op in ("func", "localfunc") and ctx.program.has_func(fn.a[0]):
+                names = set(ctx.program.func(fn.a[0]).all_params)
+        if names is None:
+            return None
+        r = name in names
+        return r if c.a[0] in ("in", "==") else (not r)
+    return None
+
+
+def rule_kwview(ctx):
+    """Every keyword the caller passes reaches every callee that accepts it: the mapping handed to filter_kwargs is
+    the function's own **kwargs (with overrides), not a subset from which a parameter of the callee has been removed;
+    and a keyword that the function itself declares explicitly (so that it no longer travels inside **kwargs) is
+    passed on by name to every callee that has a parameter of that name."""
+    R = "C03.KWVIEW"
+    n = 0
+    for f in ctx.program.all_funcs():
+        if not f.kwarg or f.qual == "util.filter_kwargs":
+            continue
+        s = ctx.S.get(f.qual)
+        explicit_opt = [p for p in f.params if p in f.defaults]
+        for c in s.calls():
+            if not c.d.get("via_filter") or not c.callee or not ctx.program.has_func(c.callee):
+                continue
+            g = ctx.program.func(c.callee)
+            star = [v for k, v in c.kw if k == "**"]
+            named = {k for k, v in c.kw if k != "**"}
+            if not star:
+                continue
+            n += 1
+            view = _kw_view(star[0], f.kwarg, ctx)
+            cons = "%s:view:%s@%d" % (f.qual, g.qual, _ordinal(s, c))
+            if view is None:
+                raise AnalysisError(R, "%s: the mapping forwarded to %s (%s) is not a readable view of **%s" % (f.qual, g.qual, tm.show(star[0], 3), f.kwarg))
+            dropped, unknown = [], []
+            if view[0] == "filtered":
+                for p in g.all_params:
+                    if p in g.defaults and p not in named:
+                        r = view[1](p)
+                        if r is None:
+                            unknown.append(p)
+                        elif not r:
+                            dropped.append(p)
+            if unknown and not dropped:
+                raise AnalysisError(R, "%s: cannot decide whether the filtered keywords forwarded to %s still contain %s" % (f.qual, g.qual, unknown))
+            yield ob(R, f, cons, not dropped, "filter_kwargs(%s, ...) receives all of the caller's keywords" % g.qual if not dropped else "the keywords forwarded to %s were filtered and no longer contain its parameter(s) %s: a caller's %s=... is silently ignored there" % (g.qual, dropped, dropped[0]), node=c.node)
+            # explicitly declared keyword of f that g also accepts
+            posargs = set()
+            for a0 in c.args:
+                if a0.op == "param":
+                    posargs.add(a0.a[0])
+            for p in explicit_opt:
+                if p in g.all_params and p in g.defaults:
+                    passed = p in named or p in posargs
+                    yield ob(R, f, "%s:explicit[%s]->%s@%d" % (f.qual, p, g.qual, _ordinal(s, c)), passed, "%s declares %s itself and passes it on to %s by name" % (f.qual, p, g.qual) if passed else "%s declares the keyword %s itself, so it no longer travels in **%s, and this call does not pass it: %s always runs with its own default" % (f.qual, p, f.kwarg, g.qual), node=c.node)
+    yield ob(R, "mir_eval/", "kwview:census", True, "%d filter_kwargs call sites examined" % n)
+
+
+def rule_padlabels(ctx):
+    """The evaluators pad the estimate to the reference span with util.adjust_intervals' default labels; the segment at
+    the front and the one at the back must not share a label (nor a label an annotation could plausibly carry the
+    documented way): with equal pad labels the label-based entries of segment / hierarchy evaluate() see the two pads
+    as one class."""
+    R = "C03.PADLABELS"
+    f = ctx.program.func("util.adjust_intervals", R)
+    need("start_label" in f.params and "end_label" in f.params, R, "adjust_intervals: start_label / end_label parameters not found")
+    ok1, a = f.default_value("start_label")
+    ok2, b = f.default_value("end_label")
+    need(ok1 and ok2, R, "adjust_intervals: pad-label defaults are not constant expressions")
+    yield ob(R, f, "util.adjust_intervals:pad-defaults-distinct", a != b and isinstance(a, str) and isinstance(b, str), "default start_label %r and end_label %r differ" % (a, b) if a != b else "default start_label and end_label are both %r: an estimate padded at both ends gets two segments of one class" % (a,))
+
+
 RULES = [
+    ("C03.KWVIEW", 53, rule_kwview),
+    ("C03.PADLABELS", 1, rule_padlabels),
+    ("C03.BEATTRIM", 1, rule_beattrim),
     ("C03.BUNDLEKW", 1, rule_bundlekw),
     ("C03.ARITY", 230, rule_arity),
     ("C03.SCALAR", 126, rule_scalar),
